@@ -75,6 +75,8 @@ type Options struct {
 	// CheckDBEachStep compares the authoritative content (fresh EXAMINE) with the model after every
 	// state-changing step instead of only at the end (C03, C06, C17, C20).
 	CheckDBEachStep bool
+	// configured limits of the server (0 = default limits)
+	MaxMsgs, MaxUID int
 }
 
 // Rig is one fresh server with gated sessions, an ungated oracle session and the harness connector.
@@ -101,6 +103,17 @@ func Literal(m string) []byte {
 func NewRig(g *Gate, opt Options) (*Rig, error) {
 	pr := &panicRec{}
 	conn := fixture.NewVConn(map[string]string{"user": "pass"})
+	if opt.MaxMsgs > 0 || opt.MaxUID > 0 {
+		mm, mu := uint32(1<<31), imap.UID(1<<31)
+		if opt.MaxMsgs > 0 {
+			mm = uint32(opt.MaxMsgs)
+		}
+		if opt.MaxUID > 0 {
+			mu = imap.UID(opt.MaxUID)
+		}
+		l := limits.NewIMAPLimits(1<<31, mm, mu, 1<<31)
+		opt.Limits = &l
+	}
 	srv, err := fixture.StartServer(fixture.Config{
 		Users: []fixture.User{{Name: "user", Pass: "pass", Conn: conn}}, Limits: opt.Limits, PanicHandler: pr,
 	})
@@ -596,6 +609,14 @@ func (r *Rig) Exec(idx int, st *Step, prev *Step) *Drift {
 			if err != nil {
 				return r.drift(idx, "oracle", "%v", err)
 			}
+			if r.opt.MaxMsgs > 0 && len(v) > r.opt.MaxMsgs {
+				r.find("C17", "C17/exceeded/messages/"+st.Act, fmt.Sprintf("step %d: after %s mailbox %s holds %d messages, the configured maximum is %d", idx, st.Describe(), b, len(v), r.opt.MaxMsgs), idx)
+			}
+			for _, e := range v {
+				if r.opt.MaxUID > 0 && e.UID > r.opt.MaxUID {
+					r.find("C17", "C17/exceeded/uid/"+st.Act, fmt.Sprintf("step %d: after %s mailbox %s holds UID %d, the configured maximum is %d", idx, st.Describe(), b, e.UID, r.opt.MaxUID), idx)
+				}
+			}
 			if got, want := entriesView(v), entriesView(st.DB[b]); got != want {
 				r.find("C03", "C03/content/"+st.Act, fmt.Sprintf("step %d: after %s mailbox %s holds %s, the reference model says %s", idx, st.Describe(), b, got, want), idx)
 				return r.drift(idx, "content", "mailbox %s holds %s, the reference model says %s", b, got, want)
@@ -665,6 +686,17 @@ func (r *Rig) connSetBoxes(idx int, st *Step, prev *Step) *Drift {
 		}
 		err = r.conn.Submit(imap.NewMessageMailboxesUpdated(rid, ids, fs), 10*time.Second)
 		r.logf("[conn] MessageMailboxesUpdated %s -> %v : %v", m, boxes, err)
+	}
+	if st.Status == "ERR" {
+		if err == nil {
+			return r.drift(idx, "ack", "connector update acknowledged with success, specification predicts a refusal (limit)")
+		}
+		if !known {
+			// the message was not created after all
+			delete(r.conn.Messages, rid)
+			delete(r.remote, m)
+		}
+		return nil
 	}
 	if err != nil {
 		return r.drift(idx, "ack", "connector update acknowledged with %v, specification predicts success", err)
